@@ -1190,8 +1190,14 @@ def C05(ctx):
                     tn = etype[pl]
                     if deferred_by_active(tn, pl) is True:
                         what = 'reported through no_transition' if p[0] == 'nt' else 'dispatched (%s)' % t
+                        sig = None
+                        if dialect_of(ctx.cfg) == 'mp11' and any(r.get('actions') == 'defer' and r['ev'] == tn and nm_ != ctx.spec['root']['name']
+                                                                  for nm_, mm in st.machine.items() for r in mm['table']):
+                            # kept in the submachine's own pool: re-offered by that submachine alone, whatever the states of
+                            # the enclosing levels defer
+                            sig = 'mp11_action_deferred_in_submachine_stranded_on_exit'
                         fail('C05', 'occurrence #%d of deferred type %s was %s while the entered states %s defer it'
-                             % (pl, tn, what, sorted(s for s in active if tn in dfr.get(s, ()))), ctx, i)
+                             % (pl, tn, what, sorted(s for s in active if tn in dfr.get(s, ()))), ctx, i, sig=sig)
                     if pl == own:
                         own_dispatched = True
                     if pl in stamp:
@@ -1238,7 +1244,6 @@ def C05(ctx):
                     if dialect_of(ctx.cfg) == 'mp11' and any(c2['op'] == 'RP' and c2['n'] >= 65000 for c2 in ctx.case[:i]):
                         sig = 'mp11_deferred_sequence_counter_wraps'
                     if dialect_of(ctx.cfg) == 'mp11' and any(r.get('actions') == 'defer' and r['ev'] == tn and nm_ != ctx.spec['root']['name']
-                                                              and not any(s_ in active for s_ in st.machine[nm_]['states'])
                                                               for nm_, mm in st.machine.items() for r in mm['table']):
                         # deferred by a Defer row of a substate: stored in the submachine's own pool, stranded there when the
                         # submachine is exited (dropped at the next entry without history)
